@@ -59,7 +59,7 @@ PROPS = {
         assumptions=[MODEL_NOTE]),
     "C07": P("P_C07.v", ["C07"], T_PARSER + T_EVAL,
         "parser half: every mix of .name/.digits/[\"literal\"] spellings and the JSON-Pointer spelling is read as the same path (declarative semantics of the regenerated table); ~0/~1 unescape inverts escape for all strings; evaluator half: eval depends on a selector only through its path",
-        [MODEL_NOTE, "back-quoted bracket literals and pointer segments the action rejects are covered by the correspondence only"]),
+        [MODEL_NOTE, "pointer segments the action rejects are covered by the correspondence only"]),
     "C08": P("P_C08.v", ["C08"], T_API,
         "non-interference: two data related by visible_eq (equal except below unexported fields and fields tagged - under the tag in force) give equal outcomes for every expression, and equal filter selections; renamed fields resolve only under the tag",
         [MODEL_NOTE, "hook-free configurations"]),
@@ -77,7 +77,7 @@ PROPS = {
         [MODEL_NOTE, "maps with non-string keys inside evaluated data: order-freeness not proved (they cannot be quantified over)"]),
     "C16": P("P_C16.v", ["C16"], T_PARSER + T_EVAL,
         "the rendering relation RF (all layouts, redundant parentheses, precedence, every match operator, quantifiers with four binding forms, selector spellings, quoted/raw/bare/integer literals) is read back by the parser as the tree, for trees of unbounded depth; Unquote(quote_double s) = s and the Parse-level literal fidelity theorem hold for EVERY byte string; not-not folding",
-        [MODEL_NOTE, "zero, negative and fractional numeric literals and raw/bare literals before `in` are covered by the correspondence only"]),
+        [MODEL_NOTE, "a bare word as the value on the left of `in` / `not in` (the grammar reads it as a selector first) is covered by the correspondence only; quoted, back-quoted and number literals there are in the proved family (AtomsSel.lval, AtomsLeft.v)"]),
     "C17": P("P_C17.v", ["C17"], T_API,
         "Execute on slices, arrays and maps keeps exactly the elements on which evaluate is true, in order, with the stated result type; nil filter identity; first error; non-containers are errors; idempotence; partition",
         [MODEL_NOTE, "input immutability is observed at run time"],
